@@ -33,6 +33,61 @@ class Undecided(Exception):
 
 # --------------------------------------------------------------------------- facts
 
+PROMOTED = {}     # 'path::promoted[k]' -> term of the value the promoted constant points at
+
+
+def _eval_promoted(blocks):
+    """Value `_0` of a promoted body points at: the usual shape is `_1 = <const / aggregate>; _0 = &_1`."""
+    env = {}
+
+    def opv(o):
+        if 'const' in o:
+            c = o['const']
+            if 'bits' in c:
+                return ('const', int(c['bits']), c['ty'])
+            return ('const', c.get('repr', '?'), c['ty'])
+        pl = o.get('copy') or o.get('move')
+        if pl is not None and not pl['p']:
+            return env.get(pl['l'], ('unknown', 'promoted-local'))
+        return ('unknown', 'promoted-place')
+    for bl in blocks:
+        for st in bl.get('stmts', ()):
+            if st.get('k') != 'assign' or st['place']['p']:
+                continue
+            rv = st['rv']
+            k = rv['rv']
+            if k == 'use':
+                env[st['place']['l']] = opv(rv['op'])
+            elif k == 'agg':
+                ops = tuple(opv(o) for o in rv['ops'])
+                if rv['kind'] == 'adt':
+                    env[st['place']['l']] = ('agg', '%s::%s' % (rv['adt'], rv['variant']), ops, tuple(rv.get('fields', ())))
+                else:
+                    env[st['place']['l']] = ('agg', rv['kind'], ops, ())
+            elif k in ('ref', 'rawptr') and not rv['place']['p']:
+                env[st['place']['l']] = ('ptr-to', env.get(rv['place']['l'], ('unknown', 'promoted-ref')))
+    v = env.get(0)
+    if v is not None and v[0] == 'ptr-to':
+        return v[1]
+    return None
+
+
+def promoted_pointee(loc):
+    """Value of a load through a promoted constant reference (None if the location is something else)."""
+    root = loc[1]
+    if root[0] == 'deref' and isinstance(root[1], tuple) and root[1][0] == 'const' and isinstance(root[1][1], str) and root[1][1] in PROMOTED:
+        v = PROMOTED[root[1][1]]
+        for p in loc[2]:
+            if p[0] == 'f':
+                v = simplify(('field', v, p[1]))
+            elif p[0] == 'dc':
+                v = simplify(('downcast', v, p[1]))
+            else:
+                return None
+        return v
+    return None
+
+
 class Facts:
     def __init__(self, path):
         with open(path) as f:
@@ -45,6 +100,10 @@ class Facts:
         self.traits = d['traits']
         for k, b in self.bodies.items():
             b['id'] = k
+            for k_, pb in enumerate(b.get('promoted', ())):
+                v_ = _eval_promoted(pb)
+                if v_ is not None and v_[0] != 'unknown':
+                    PROMOTED['%s::promoted[%d]' % (k, k_)] = v_
             if b.get('kind') == 'Closure' and not b['name'].endswith('{closure}'):
                 # a closure is not the function it is written in: rules that select a method by name must not pick it up
                 b['name'] = b['name'] + '::{closure}'
@@ -1083,12 +1142,18 @@ def simplify(t, call_d=None):
         return t
     if k == 'discr':
         v = t[1]
+        if v[0] in ('load0', 'load') and v[1][0] == 'loc':
+            pv = promoted_pointee(v[1])
+            if pv is not None:
+                v = pv
         if v[0] == 'agg' and '::' in v[1]:
             nm = v[1].rsplit('::', 1)[1]
             if nm in ('None', 'Ok', 'Continue'):
                 return ('const', 0, 'isize')
             if nm in ('Some', 'Err', 'Break'):
                 return ('const', 1, 'isize')
+            if v[1] in VARIANT_DISCR:
+                return ('const', VARIANT_DISCR[v[1]], 'isize')
         return t
     return t
 
